@@ -529,6 +529,33 @@ theorem uncompiled_subclass_of_compiled_differs :
     ∧ (interpInit child [1, 2, 3] []).toOption = some [("c", 3), ("b", 2), ("a", 1)] := by
   decide
 
+/-! ## translated ties (re-proved against the source on every run)
+
+  `Gen.compiledBattery` / `Gen.dataclassBattery` are written by the translator from what the REAL `vp_compile` /
+  `convert_to_payload` of the working tree did to a fixed battery of definitions (every branch of the generators:
+  bits first/middle/last, nested class, payload list, hooks also on bits names and inherited, user `__init__` with
+  defaults / `**kwargs` / keyword-only / inherited, old-style superclass, 12 fields) and to every shipped class.  A change
+  of the generators or of the conversion that alters the emitted code / the class data of any battery member makes these
+  `decide` proofs fail. -/
+
+/-- the hand-written generators `compileInit/compileUnpack/compilePack` emit, for every battery member and every
+    shipped compiled class, exactly the code shape that the real `_compile_init/_compile_from_unpack_list/
+    _compile_to_pack_list` emitted -/
+theorem generated_code_matches_model : ∀ e ∈ Gen.compiledBattery, e.1.modelShape = some e.2 := by decide
+
+/-- `typeMap`, the field order and the derived container rules of the model reproduce, for every battery dataclass,
+    what the real `convert_to_payload` produced (`none` = the conversion is refused) -/
+theorem dataclass_conversion_matches_model : ∀ c ∈ Gen.dataclassBattery, c.model = c.result := by decide
+
+/-- the batteries are not empty and contain the interesting shapes (when the emitted text is inside the parser's subset;
+    otherwise the translator leaves those members out and says so: `coverage.translator` in the evidence) -/
+example : Gen.batteryTextRecognised = true → Gen.compiledBattery.length ≥ 18
+    ∧ (Gen.compiledBattery.filter (fun e => e.2.unpackArgs.any (·.2))).length ≥ 5
+    ∧ (Gen.compiledBattery.filter (fun e => e.2.initParams.any (·.2))).length ≥ 4
+    ∧ (Gen.dataclassBattery.filter (fun c => c.result.isNone)).length ≥ 3
+    ∧ (Gen.dataclassBattery.filter (fun c => match c.result with | some (_, _, d) => !d.isEmpty | none => false)).length ≥ 3 := by
+  decide
+
 /-! ## the shipped definitions (regenerated from the live package on every run) -/
 
 /-- every shipped VariablePayload definition is well formed: distinct names, one name per slot, defaults ordered -/
